@@ -427,7 +427,7 @@ def canon(j):
                 v = list(v)
                 v[3] = sorted(v[3], key=lambda x: json.dumps(x, sort_keys=True))
                 v[4] = sorted(v[4], key=lambda x: json.dumps(x, sort_keys=True))
-            if k in ('msg', 'rtsafe'):
+            if k in ('msg', 'rtsafe', 'valid', 'keyForm', 'rep'):
                 continue
             out[k] = v
         return out
